@@ -15,7 +15,7 @@ cp /verif/known_findings.txt "$S/verif/"
 ( cd "$S/repo" && GOFLAGS=-mod=readonly GOPROXY=off GOSUMDB=off GOTOOLCHAIN=local go build ./... ) || { echo "MUTANT DOES NOT COMPILE"; exit 2; }
 hit=1
 for p in "$@"; do
-  out=$(/verif/bin/qicheck -property "$p" -tier "${TIER:-quick}" -repo "$S/repo" -verif "$S/verif" 2>&1)
+  out=$(${QICHECK:-/verif/bin/qicheck} -property "$p" -tier "${TIER:-quick}" -repo "$S/repo" -verif "$S/verif" 2>&1)
   echo "$out" | grep -E "^(VIOLATION|UNDECIDED) " | grep -v "^VIOLATION property=" | sed "s|$S/repo/||g" | cut -c1-400
   if echo "$out" | grep -q "^VIOLATION property="; then hit=0; echo "== $p: CAUGHT"; else echo "== $p: silent"; fi
 done
